@@ -120,6 +120,13 @@ def obligations(tier):
                       bounds=f'{hdr} sent by the subscriber; client supported_encodings = {case} (None, (), gzip, lz4s, (lz4, gzip))',
                       claim='a notification is only coded with a coding the subscriber declared with q > 0 and that is enabled '
                             'locally; the subscriber\'s reader recovers the payload'))
+    obs.append(Ob('C17.codec.concatenation', 'harness.C17', 'codec_concatenation', timeout=t,
+                  functions=['sdc11073.httpserver.compression.GzipCompressionHandler.decompress_payload',
+                             'sdc11073.httpserver.compression.Lz4CompressionHandler.decompress_payload'],
+                  stubs=['the codecs themselves (zlib, lz4) are C code and run concretely; the solver chooses the selectors'],
+                  bounds='gzip / x-lz4 x (two members, unit + garbage, unit + truncated unit, one unit) x payload sizes from {0, 1, 300}',
+                  claim='several members decode to the concatenation of their payloads; trailing garbage / a truncated member is '
+                        'rejected, never silently dropped'))
     obs.append(Ob('C17.negotiate.client', 'harness.C17', 'negotiate_client', timeout=t, functions=CLIENT,
                   stubs=[S_CONN, S_STREAM, S_HDR, S_CODEC, S_REF],
                   bounds='sync and async client x 8 request_encodings lists (incl. unknown names, None) x 5 supported_encodings x '
